@@ -24,6 +24,7 @@
 import GunYu.Model.Slot
 import GunYu.Model.ClusterRoute
 import GunYu.Model.ClusterSender
+import GunYu.Model.ClusterExec
 namespace GunYu.Drive.C19
 open GunYu GunYu.ClusterRoute
 
@@ -102,6 +103,8 @@ def runPlain (ctx : Ctx) (tag : String) (n : Nat) (showQuiet : Bool) (toks : Lis
   let rec go (acc : PAcc) (i : Nat) : List String → Except String PAcc
     | [] => .ok acc
     | t :: ts =>
+      -- F:<kind>: the double injected a fault into the next request (its answer is the `e` that follows)
+      if t.startsWith "F:" then go acc (i + 1) ts else
       match plainEv acc (t.splitOn ":") with
       | none => .error s!"parse @{i}"
       | some e =>
@@ -220,8 +223,151 @@ def senderLine (tag txn pipe cls path pers : String) : String :=
       let (n, f) := ClusterSender.sendFunc m outs 0
       s!"{tag} resends={n - 1} final={showF f}"
 
+
+/-! operational model of a batch attempt / the blocking sender (Model/ClusterExec.lean):
+
+      c19x <tag> <split 0|1> <n> <grp of position 0,1,…> <event> …
+    events, translated by the harness from the observed run (client puts / Exec boundaries, the
+    cluster double's global answer order):
+      B:<p>:<q>:<wantPos>:<node queue of p,…,q-1>   Put… + Exec of the queue [p,q)
+      x:<i>  r:<i>     the queue's node executed / refused (MOVED, ASK) position i
+      c:<i>            a followed redirect executed position i at another node
+      F:rd F:cs F:ot   Exec returned a redirect error / the recorded CROSSSLOT Put error / another error
+      A                Exec returned nil for the data commands
+      ps px pr pc      position write: batch sent / applied / refused / applied after a followed redirect
+      d                sendFuncOnce returned nil            R   the run ended (next: a new segment)
+    `clientOk` (the client consuming an OK reply) is not observable from outside: the driver
+    inserts every enabled one, in position order, before `c`, `A` and `F`.
+    →  "<tag> accept" | "<tag> reject <event> @<index>"; "<tag> quiet <b>" (ClusterExec.QuietRun on
+       this run); "<tag> segs …" the segment events closed; "<tag> auto <ok|none> disc=<b> prefix=<b>"
+       (ClusterSegments.run on them, Disciplined, PrefixRun — what Props.C19.exec_refines_segments
+       proves, evaluated); "<tag> log …" "<tag> stored <n>" the target's real log / stored position -/
+namespace X
+open GunYu.ClusterSegments GunYu.ClusterExec
+
+def showSeg : ClusterSegments.Ev → String
+  | .start => "s"
+  | .batch q (.ok app st) => s!"o:{q}:{st.toNat}:{joinOr (app.map toString)}"
+  | .batch q (.cut app st) => s!"c:{q}:{st.toNat}:{joinOr (app.map toString)}"
+
+def disciplinedB (evs : List ClusterSegments.Ev) : Bool :=
+  evs.all (fun e => match e with | .batch _ (.cut _ st) => !st | _ => true)
+
+def prefixCutB (grp : Nat → Nat) (p q : Nat) (app : List Nat) : Bool :=
+  (rng p q).all (fun i => (app.filter (fun j => grp j == grp i)).isPrefixOf ((rng p q).filter (fun j => grp j == grp i)))
+
+def prefixRunB (n : Nat) (grp : Nat → Nat) : Tgt → List ClusterSegments.Ev → Bool
+  | _, [] => true
+  | t, e :: es =>
+    (match e with
+     | .batch q (.cut app _) => prefixCutB grp t.cur q app
+     | _ => true) &&
+    (match ClusterSegments.step n grp t e with
+     | some t' => prefixRunB n grp t' es
+     | none => true)
+
+def saturate (split : Bool) (s : XSt) : XSt :=
+  match s.att with
+  | none => s
+  | some a =>
+    (rng s.base.cur a.q).foldl (fun s i =>
+      match stepInner split s (.clientOk i) with
+      | some (s', _) => s'
+      | none => s) s
+
+def parseEv (s : XSt) (p : List String) : Except String XEv :=
+  match p with
+  | ["B", p0, q, w, rs] =>
+    match nat? p0, nat? q, (parseCsv rs).mapM nat? with
+    | some p0, some q, some rl =>
+      if p0 ≠ s.base.cur then .error "begin-position"
+      else .ok (.begin q (fun i => rl.getD (i - p0) 0) (w == "1"))
+    | _, _, _ => .error "parse"
+  | ["x", i] => match nat? i with | some i => .ok (.nodeExec i) | none => .error "parse"
+  | ["r", i] => match nat? i with | some i => .ok (.nodeRedirect i) | none => .error "parse"
+  | ["c", i] => match nat? i with | some i => .ok (.chaseExec i) | none => .error "parse"
+  | ["F", "rd"] => .ok (.fail .redirect)
+  | ["F", "ot"] => .ok (.fail .other)
+  | ["F", "cs"] => .ok (.fail .crossslot)
+  | ["A"] => .ok .ack
+  | ["ps"] => .ok .posSend
+  | ["px"] => .ok .posExec
+  | ["pr"] => .ok .posRedirect
+  | ["pc"] => .ok .posChaseExec
+  | ["d"] => .ok .done
+  | ["R"] => .ok .restart
+  | _ => .error "parse"
+
+structure Acc where
+  st : XSt := {}
+  out : List ClusterSegments.Ev := []
+  quiet : Bool := true
+
+def runX (tag : String) (split : Bool) (n : Nat) (grp : Nat → Nat) (toks : List String) : List String :=
+  let rec go (acc : Acc) (i : Nat) : List String → Except String Acc
+    | [] => .ok acc
+    | t :: ts =>
+      match parseEv acc.st (t.splitOn ":") with
+      | .error m => .error s!"{m} {t} @{i}"
+      | .ok e =>
+        let st0 := match e with
+          | .chaseExec _ | .ack | .fail _ | .done => saturate split acc.st
+          | _ => acc.st
+        match ClusterExec.step n grp split st0 e with
+        | none => .error s!"{t} @{i}"
+        | some (st', o) =>
+          go { st := st', out := acc.out ++ o, quiet := acc.quiet && quietOKB grp st0 e } (i + 1) ts
+  match go {} 0 toks with
+  | .error m => [s!"{tag} reject {m}"]
+  | .ok acc =>
+    let auto := ClusterSegments.run n grp {} acc.out
+    [s!"{tag} accept",
+     s!"{tag} quiet {acc.quiet}",
+     s!"{tag} segs {if acc.out.isEmpty then "." else ";".intercalate (acc.out.map showSeg)}",
+     s!"{tag} auto {if auto.isSome then "ok" else "none"} disc={disciplinedB acc.out} prefix={prefixRunB n grp {} acc.out}",
+     s!"{tag} log {joinOr (acc.st.tlog.map toString)}",
+     s!"{tag} stored {acc.st.tstored}"]
+
+/-- c19d <tag> <txn 0|1> <puts: node | r, …> <failAt | ->  →  "<tag> submitted <nodes> <ok|err>"
+    (ClusterSender.put / dispatch: what a Dispatch that fails has handed to the nodes) -/
+def dispatchLine (tag txn puts failAt : String) : String :=
+  let evs : List ClusterSender.PutEv := (parseCsv puts).map (fun t =>
+    match t.toNat? with
+    | some nd => .routed nd
+    | none => .refused)
+  let s := ClusterSender.puts (txn == "1") {} evs
+  let (sub, ok) := ClusterSender.dispatch s failAt.toNat?
+  s!"{tag} submitted {joinOr (sub.map toString)} {if ok then "ok" else "err"}"
+
+/-- c19s <tag> <txnCluster> <pipeline> <txnPut 0|1> <puts> <cs 0|1> <failAt of attempt 1,2,…>
+    →  "<tag> attempts=<k> submitted=<nodes> final=<…>": the pipelined sender's retry loop over a batch
+    whose Dispatch fails (ClusterSender.sendFunc + onceP + submitted) -/
+def submitLine (tag txnC pipe txnPut puts cs fails : String) : String :=
+  let evs : List ClusterSender.PutEv := (parseCsv puts).map (fun t =>
+    match t.toNat? with
+    | some nd => .routed nd
+    | none => .refused)
+  let s := ClusterSender.puts (txnPut == "1") {} evs
+  let fs : List (Option Nat) := (parseCsv fails).map (·.toNat?)
+  let m : ClusterSender.SMode := ⟨txnC == "1", pipe == "1"⟩
+  let (k, f) := ClusterSender.sendFunc m (fs.map (fun x => (ClusterSender.onceP s (cs == "1") x).2)) 0
+  let showF : ClusterSender.Final → String
+    | .ok => "eof"
+    | .typology => "typology"
+    | .brk => "break"
+    | .other => "other"
+  s!"{tag} attempts={k} submitted={joinOr ((ClusterSender.submitted m s (cs == "1") fs 0).map toString)} final={showF f}"
+
+end X
+
 def handle : List String → Option (List String)
   | ["c19o", tag, txn, pipe, cls, path, pers] => some [senderLine tag txn pipe cls path pers]
+  | ["c19d", tag, txn, puts, failAt] => some [X.dispatchLine tag txn puts failAt]
+  | ["c19s", tag, txnC, pipe, txnPut, puts, cs, fails] => some [X.submitLine tag txnC pipe txnPut puts cs fails]
+  | "c19x" :: tag :: split :: n :: grp :: evs =>
+    match nat? n, (parseCsv grp).mapM nat? with
+    | some n, some gl => some (X.runX tag (split == "1") n (fun i => gl.getD i 0) evs)
+    | _, _ => some [s!"{tag} bad-op"]
   | "c19" :: tag :: mode :: n :: keys :: own :: evs =>
     match nat? n, (parseCsv keys).mapM Hex.decode, (parseCsv own).mapM nat? with
     | some n, some ks, some ow =>
